@@ -10697,14 +10697,25 @@ func (p *parser) visitAndAppendStmt(stmts []js_ast.Stmt, stmt js_ast.Stmt) []js_
 						fmt.Sprintf("The original label %q is here:", name))})
 				break
 			}
-			if scope.Kind == js_ast.ScopeFunctionBody {
-				// Labels are only visible within the function they are defined in.
+			if scope.Kind.StopsHoisting() {
+				// Labels are only visible within the function (or class static
+				// block) they are defined in.
 				break
 			}
 		}
 
+		// A label on a labeled loop is also a label of that loop ("a: b: for (;;) continue a")
+		labeled := s.Stmt
+		for {
+			inner, ok := labeled.Data.(*js_ast.SLabel)
+			if !ok {
+				break
+			}
+			labeled = inner.Stmt
+		}
+
 		p.currentScope.Label = ast.LocRef{Loc: s.Name.Loc, Ref: ref}
-		switch s.Stmt.Data.(type) {
+		switch labeled.Data.(type) {
 		case *js_ast.SFor, *js_ast.SForIn, *js_ast.SForOf, *js_ast.SWhile, *js_ast.SDoWhile:
 			p.currentScope.LabelStmtIsLoop = true
 		}
